@@ -19,7 +19,7 @@ from .. import coqterm as T
 from ..syncdrv import RWRun, FLRun, overlap_monitor, writers_monitor
 
 HEADER = 'From PV Require Import Base.Prelude Sync.RWLock Sync.RWLockCheck.\n'
-FL_HEADER = 'From PV Require Import Base.Prelude Sync.FileLock Sync.FileLockCheck.\n'
+FL_HEADER = 'From PV Require Import Base.Prelude Sync.RWLock Sync.FileLock Sync.FileLockCheck.\n'
 
 
 # ------------------------------------------------------------------ encoders
@@ -82,7 +82,9 @@ def explore(make_run, cancel_budget: int, extra_labels=None, max_leaves: int = 2
     """Stateless depth-first exploration of *all* schedules of a configuration,
     pruned at states already seen (the glass-box key holds everything the
     future depends on).  Every transition out of every reachable state is
-    executed; returns the maximal paths as lists of step records."""
+    executed once.  Returns (leaves, tree, n_states, n_transitions): the
+    maximal paths as lists of step records (for the monitors) and the same
+    runs as a prefix tree {prefix: [(label, record, runnable_after)]}."""
     def run_prefix(prefix):
         r = make_run()
         for lab in prefix:
@@ -97,6 +99,7 @@ def explore(make_run, cancel_budget: int, extra_labels=None, max_leaves: int = 2
     r.close()
     work = [()]
     leaves = []
+    tree: dict[tuple, list] = {}
     n_trans = 0
     while work and len(leaves) < max_leaves:
         prefix = work.pop()
@@ -112,10 +115,12 @@ def explore(make_run, cancel_budget: int, extra_labels=None, max_leaves: int = 2
             r.close()
             continue
         r.close()
+        kids = tree.setdefault(prefix, [])
         for lab in labels:
             r = run_prefix(prefix)
-            r.step(lab)
+            rec = r.step(lab)
             n_trans += 1
+            kids.append((lab, rec, r.enabled()))
             k = (r.key(), used(prefix + (lab,)))
             if k in visited:
                 leaves.append((prefix + (lab,), r.steps, r.log[:], r.view(), False))
@@ -123,7 +128,19 @@ def explore(make_run, cancel_budget: int, extra_labels=None, max_leaves: int = 2
                 visited.add(k)
                 work.append(prefix + (lab,))
             r.close()
-    return leaves, len(visited), n_trans
+    return leaves, tree, len(visited), n_trans
+
+
+def enc_tree(tree, enc_node, node_name: str, nil: str) -> str:
+    """the prefix tree as a list of Gallina trees (iteratively, bottom-up)"""
+    memo: dict[tuple, str] = {}
+    for prefix in sorted(tree, key=len, reverse=True):
+        items = []
+        for lab, rec, after in tree[prefix]:
+            kids = memo.pop(prefix + (lab,), nil)
+            items.append(f'({node_name} {enc_node(rec)} {enc_natlist(after)} {kids})')
+        memo[prefix] = T.lst(items)
+    return memo.get((), nil)
 
 
 # ---------------------------------------------------------------- rw section
@@ -188,35 +205,46 @@ def rw_monitors(ctx, progs, prefix, log, view, terminal) -> bool:
 
 
 def section_rw(ctx, algo: str = 'Fixed') -> None:
-    cases, descr = [], []
+    trees, per_cfg = [], []
     stats = []
     for progs, budget in rw_configs(ctx):
-        leaves, n_states, n_trans = explore(lambda: RWRun(progs), budget)
+        leaves, tree, n_states, n_trans = explore(lambda: RWRun(progs), budget)
         stats.append({'programs': repr(progs), 'cancels': budget, 'states': n_states,
                       'transitions': n_trans, 'paths': len(leaves)})
+        cases, descr = [], []
         for prefix, steps, log, view, terminal in leaves:
             ctx.count(('rw', repr(progs), prefix), nontrivial=len(prefix) > 2)
             failed = rw_monitors(ctx, progs, prefix, log, view, terminal)
-            foreign = [s for s in steps if s['foreign']]
-            if foreign:
+            if any(s['foreign'] for s in steps):
                 ctx.disagreement('rw_steps', {'what': 'a ready handle that belongs to no task: '
                                               'a step is no longer one task', 'programs': repr(progs)})
-            cases.append(enc_case(algo, progs, steps))
-            descr.append((progs, prefix, failed))
+            cases.append((steps, prefix, failed))
+        trees.append(f'({algo}, {enc_progs(progs)}, {enc_tree(tree, enc_obs, "ONode", "(@nil otree)")})')
+        per_cfg.append((progs, cases))
     ctx.extra['rw_exploration'] = stats
-    ctx.sample({'rw_programs': repr(descr[-1][0]), 'schedule': repr(descr[-1][1])})
-    bad = ctx.run_cases('rw_lock', HEADER, 'algo * list (list acq) * list obs', cases, 'chk_rw')
-    reported = 0
-    for i in bad:
-        progs, prefix, failed = descr[i]
-        if failed or reported >= 5:
-            continue
-        reported += 1
-        ctx.disagreement('rw_lock', {'programs': repr(progs), 'schedule': repr(list(prefix))})
-    if bad and not reported:
-        # the disagreeing runs all failed a monitor: the failing inputs are reported there
-        ctx.broken.append(f'correspondence rw_lock: {len(bad)} runs of the real lock are not '
-                          f'behaviours of the model (each also fails a monitor)')
+    ctx.sample({'rw_programs': repr(per_cfg[-1][0]), 'schedule': repr(per_cfg[-1][1][-1][1])})
+    bad = ctx.run_cases('rw_lock', HEADER, 'algo * list (list acq) * list otree', trees,
+                        'chk_rw_tree', shard=1)
+    ctx.corr[-1].update({'cases': sum(x['transitions'] for x in stats),
+                         'configurations': len(trees), 'paths': sum(x['paths'] for x in stats)})
+    ctx.traces_validated += sum(len(c) for i, (_, c) in enumerate(per_cfg) if i not in bad)
+    # a configuration whose tree does not replay: find the paths that differ
+    for i in bad[:3]:
+        progs, cases = per_cfg[i]
+        terms = [enc_case(algo, progs, steps) for steps, _, _ in cases]
+        bad_paths = ctx.run_cases(f'rw_lock_paths_{i}', HEADER, 'algo * list (list acq) * list obs',
+                                  terms, 'chk_rw')
+        reported = 0
+        for j in bad_paths:
+            _, prefix, failed = cases[j]
+            if failed or reported >= 3:
+                continue
+            reported += 1
+            ctx.disagreement('rw_lock', {'programs': repr(progs), 'schedule': repr(list(prefix))})
+        if not reported:
+            ctx.broken.append(f'correspondence rw_lock: runs of the real lock with programs {progs} '
+                              f'are not behaviours of the model ({len(bad_paths)} paths; each also '
+                              f'fails a monitor)')
 
 
 # ---------------------------------------------------------------- fl section
@@ -250,7 +278,7 @@ def fl_configs(ctx):
     Wx = ('W', 1, True)
     quick = [
         ([[W1], [W1]], 2, None, 1),
-        ([[W1], [W1], [R1]], 1, None, 1),
+        ([[W1], [W1], [R1]], 1, None, 0),
         ([[W2], [W0, W1]], 2, None, 1),
         ([[Wx, W1], [W1]], 1, None, 1),
         ([[W1], [R1]], 1, 'fresh', 1),
@@ -261,6 +289,7 @@ def fl_configs(ctx):
         return quick
     return quick + [
         ([[W1], [W1], [W1]], 2, None, 1),
+        ([[W1], [W1], [R1]], 1, None, 1),
         ([[W1], [W1]], 2, None, 2),
         ([[W1, R1], [R1, W1]], 2, None, 1),
         ([[W1], [W1]], 2, 'fresh', 2),
@@ -318,35 +347,50 @@ def fl_monitors(ctx, cfg, prefix, steps, log, view, terminal) -> bool:
 
 
 def section_fl(ctx) -> None:
-    cases, descr, stats = [], [], []
+    trees, per_cfg, stats = [], [], []
     for cfg in fl_configs(ctx):
         progs, ndelays, stale, budget = cfg
-        leaves, n_states, n_trans = explore(
+        leaves, tree, n_states, n_trans = explore(
             lambda: FLRun(progs, ndelays=ndelays, stale=stale), budget,
             extra_labels=lambda r: [('expire', 0)])
         stats.append({'programs': repr(progs), 'delays': ndelays, 'stale': stale,
                       'cancel_or_expire': budget, 'states': n_states,
                       'transitions': n_trans, 'paths': len(leaves)})
+        cases = []
+        f0 = {None: 'Absent', 'fresh': 'Fresh', 'expired': 'Expired'}[stale]
         for prefix, steps, log, view, terminal in leaves:
             ctx.count(('fl', repr(cfg), prefix), nontrivial=len(prefix) > 2)
             failed = fl_monitors(ctx, cfg, prefix, steps, log, view, terminal)
-            obs = T.lst(enc_fobs(r) for r in steps) if steps else '(@nil fobs)'
-            f0 = {None: 'Absent', 'fresh': 'Fresh', 'expired': 'Expired'}[stale]
-            cases.append(f'({T.nat(ndelays)}, {f0}, {enc_progs(progs)}, {obs})')
-            descr.append((cfg, prefix, failed))
+            cases.append((steps, prefix, failed))
+        trees.append(f'({T.nat(ndelays)}, {f0}, {enc_progs(progs)}, '
+                     f'{enc_tree(tree, enc_fobs, "FONode", "(@nil fotree)")})')
+        per_cfg.append((cfg, f0, cases))
     ctx.extra['fl_exploration'] = stats
-    bad = ctx.run_cases('file_lock', FL_HEADER, 'nat * fstate * list (list acq) * list fobs',
-                        cases, 'chk_fl')
-    reported = 0
-    for i in bad:
-        cfg, prefix, failed = descr[i]
-        if failed or reported >= 5:
-            continue
-        reported += 1
-        ctx.disagreement('file_lock', {'config': repr(cfg), 'schedule': repr(list(prefix))})
-    if bad and not reported:
-        ctx.broken.append(f'correspondence file_lock: {len(bad)} runs of the real FileLock are '
-                          f'not behaviours of the model (each also fails a monitor)')
+    bad = ctx.run_cases('file_lock', FL_HEADER, 'nat * fstate * list (list acq) * list fotree',
+                        trees, 'chk_fl_tree', shard=1)
+    ctx.corr[-1].update({'cases': sum(x['transitions'] for x in stats),
+                         'configurations': len(trees), 'paths': sum(x['paths'] for x in stats)})
+    ctx.traces_validated += sum(len(c) for i, (_, _, c) in enumerate(per_cfg) if i not in bad)
+    for i in bad[:3]:
+        cfg, f0, cases = per_cfg[i]
+        progs, ndelays, stale, _ = cfg
+        terms = []
+        for steps, _, _ in cases:
+            obs = T.lst(enc_fobs(r) for r in steps) if steps else '(@nil fobs)'
+            terms.append(f'({T.nat(ndelays)}, {f0}, {enc_progs(progs)}, {obs})')
+        bad_paths = ctx.run_cases(f'file_lock_paths_{i}', FL_HEADER,
+                                  'nat * fstate * list (list acq) * list fobs', terms, 'chk_fl')
+        reported = 0
+        for j in bad_paths:
+            _, prefix, failed = cases[j]
+            if failed or reported >= 3:
+                continue
+            reported += 1
+            ctx.disagreement('file_lock', {'config': repr(cfg), 'schedule': repr(list(prefix))})
+        if not reported:
+            ctx.broken.append(f'correspondence file_lock: runs of the real FileLock with {cfg} are '
+                              f'not behaviours of the model ({len(bad_paths)} paths; each also '
+                              f'fails a monitor)')
 
 
 # ------------------------------------------------------------------ section thr
